@@ -1,6 +1,7 @@
 import Driver.Common
 import IoraModel.Model.Teardown
 import IoraModel.Model.FlushFrames
+import IoraModel.Model.TeardownRoles
 /-! Driver of the C05 model (`iora_model teardown`): acceptor for DetSched traces of the real teardown handshake. -/
 namespace Iora.Driver.Teardown
 open Iora Iora.Teardown Iora.Driver
@@ -72,6 +73,7 @@ def parkedFlag (s : State) : Step → String
 structure DState where
   td : State := {}
   ff : FlushFrames.State := {}
+  rs : TeardownRoles.State := {}
 
 def showFEv : FlushFrames.Ev → String
   | .ret d ok => s!"ret:{d}:{bit ok}"
@@ -115,9 +117,47 @@ def stepFf (s : FlushFrames.State) : List String → FlushFrames.State × String
     | none => (s, "bad-op")
   | _ => (s, "bad-op")
 
+/-! the thread-role model (`rsreset` / `rs <step>` lines): answer = the callbacks the step logged, each `cb:<role>:<kind>`, then
+` q=<quiet> t=<armed timers> c=<queue closed> io=<I/O thread alive>`; the configuration is `TeardownRoles.genCfg` (regenerated) -/
+def showRole : TeardownRoles.Role → String
+  | .io => "io" | .timer => "timer" | .api => "api"
+def showCb : TeardownRoles.Cb → String
+  | .accept => "accept" | .connect => "connect" | .data => "data" | .close => "close" | .error => "error"
+
+def parseIoEv : String → Option TeardownRoles.IoEv
+  | "connected" => some .connected | "handshakeDone" => some .handshakeDone | "data" => some .data
+  | "stalled" => some .stalled | "drained" => some .drained | "error" => some .error
+  | _ => none
+
+def parseRStep : List String → Option TeardownRoles.Step
+  | ["apiStart", f] => do let f ← parseBit f; pure (.apiStart f)
+  | ["apiConnect", t, o] => do let t ← parseBit t; let o ← parseBit o; pure (.apiConnect t o)
+  | ["apiSend", sid, o] => do let sid ← sid.toNat?; let o ← parseBit o; pure (.apiSend sid o)
+  | ["apiClose", sid, o] => do let sid ← sid.toNat?; let o ← parseBit o; pure (.apiClose sid o)
+  | ["apiStop", o] => do let o ← parseBit o; pure (.apiStop o)
+  | ["apiStopJoin"] => some .apiStopJoin
+  | ["ioProcess", a] => do let a ← parseBit a; pure (.ioProcess a)
+  | ["ioEvent", sid, ev, a] => do let sid ← sid.toNat?; let ev ← parseIoEv ev; let a ← parseBit a; pure (.ioEvent sid ev a)
+  | ["ioDrainClose", sid] => do let sid ← sid.toNat?; pure (.ioDrainClose sid)
+  | ["ioDrainFinish"] => some .ioDrainFinish
+  | ["timerFire", k, o] => do let k ← k.toNat?; let o ← parseBit o; pure (.timerFire k o)
+  | _ => none
+
+def stepRs (s : TeardownRoles.State) : List String → TeardownRoles.State × String
+  | ["rsreset"] => ({}, "ok")
+  | "rs" :: rest =>
+    match parseRStep rest with
+    | some sp =>
+      let s' := TeardownRoles.step TeardownRoles.genCfg s sp
+      let evs := (s'.log.drop s.log.length).map fun e => s!"cb:{showRole e.1}:{showCb e.2}"
+      (s', s!"{joinEvs evs} q={bit s'.quiet} t={s'.timers.length} c={bit s'.closed} io={bit s'.ioAlive}")
+    | none => (s, "bad-op")
+  | _ => (s, "bad-op")
+
 def step (s : DState) (l : List String) : DState × String :=
   match l with
   | "ffreset" :: _ | "ff" :: _ => let (f, o) := stepFf s.ff l; ({ s with ff := f }, o)
+  | "rsreset" :: _ | "rs" :: _ => let (r, o) := stepRs s.rs l; ({ s with rs := r }, o)
   | _ => let (t, o) := stepTd s.td l; ({ s with td := t }, o)
 
 def main : IO Unit := runLines ({} : DState) step
